@@ -14,6 +14,7 @@ LEVEL = "fault_enumeration"
 TECHNIQUE = ('deterministic simulation with reject fault enumeration: every (position, slot, cause) of each seeded statement sequence injected into a fresh stream driven statement by statement (catch-and-continue caller, optional re-enroll); oracle = reference decoding of what was written')
 LEVEL_NOTE = ('sequences sampled by seed, injection points enumerated per sequence')
 OPTIMIZED_EVERY = 25      # every 25th run is executed in a child interpreter started with python -O
+PBPY_EVERY = 50           # every 50th run (offset 6) is executed with protobuf's pure-Python backend
 COMPILED_EVERY = 25       # every 25th run (offset 12) is executed in a child that imports a mypyc build of the tree
 RUNS = {"quick": 6000, "thorough": 100000}
 CHUNK = 10
